@@ -200,6 +200,12 @@ func C16(ctx *Ctx) {
 		a = &absint.Ptr{Nil: absint.TriF, Obj: ip.SymObj("a", roles.Named), T: roles.Named}
 		e = &absint.Ptr{Nil: absint.TriF, Obj: ip.SymObj("e", roles.Named), T: roles.Named}
 		st := &absint.State{Heap: absint.NewHeap(nil)}
+		// the receiver has a target here; the target-less receiver is looked at separately below
+		ct := S.Field(roles.Code).Type()
+		if cv, ok := ip.Load(st, fieldPtr(a, ct, roles.Code), ct).(*absint.Slice); ok {
+			cv.Nil = absint.TriF
+			ip.Store(st, fieldPtr(a, ct, roles.Code), ct, cv)
+		}
 		for i := 0; i < S.NumFields(); i++ {
 			aEntry[i] = ip.Load(st, fieldPtr(a, S.Field(i).Type(), i), S.Field(i).Type())
 			eEntry[i] = ip.Load(st, fieldPtr(e, S.Field(i).Type(), i), S.Field(i).Type())
@@ -210,6 +216,7 @@ func C16(ctx *Ctx) {
 		R.Fail("coverage", "Append:analysable", apos, fmt.Sprintf("not interpretable: %v", ip.Imprec))
 		return
 	}
+	checkAppendNoTarget(ctx, roles, app, W)
 	o := ip.Ops
 	// capacity guard
 	an, _ := aEntry[roles.N].(*absint.Int)
@@ -232,8 +239,8 @@ func C16(ctx *Ctx) {
 	okGuard := true
 	nEff := 0
 	for _, s := range ip.Stores {
-		if s.Obj != a.Obj && s.Obj != e.Obj {
-			continue
+		if s.Obj != a.Obj && s.Obj != e.Obj || s.Fn == nil {
+			continue // (a store without a function is the set-up of the cell)
 		}
 		nEff++
 		if !guarded(s.GuardL) {
@@ -396,4 +403,72 @@ func C16(ctx *Ctx) {
 		}
 	}
 	_ = ssa.BuilderMode(0)
+}
+
+// checkAppendNoTarget: the same transfer for a receiver without a target buffer (a measuring emitter). The scalar
+// fields the emitting API can modify take the argument's values, and n stays n plus what could be copied (nothing:
+// the capacity guard in force there says a.n+e.n <= 0), whichever way that is spelled.
+func checkAppendNoTarget(ctx *Ctx, roles *EmitterRoles, app *ssa.Function, W map[int][]string) {
+	R := ctx.R
+	S := roles.Struct
+	apos := ctx.Prog.Pos(app.Pos())
+	ip := absint.New()
+	ip.TraceStores = true
+	var a, e *absint.Ptr
+	aEntry, eEntry := map[int]absint.Val{}, map[int]absint.Val{}
+	_, out := ip.CallFix(app, func() ([]absint.Val, *absint.State) {
+		a = &absint.Ptr{Nil: absint.TriF, Obj: ip.SymObj("a", roles.Named), T: roles.Named}
+		e = &absint.Ptr{Nil: absint.TriF, Obj: ip.SymObj("e", roles.Named), T: roles.Named}
+		st := &absint.State{Heap: absint.NewHeap(nil)}
+		ct := S.Field(roles.Code).Type()
+		if cv, ok := ip.Load(st, fieldPtr(a, ct, roles.Code), ct).(*absint.Slice); ok {
+			ip.Store(st, fieldPtr(a, ct, roles.Code), ct, &absint.Slice{Nil: absint.TriT, ElemT: cv.ElemT, Off: absint.NewConst(64, 0, true), Len: absint.NewConst(64, 0, true), Cap: absint.NewConst(64, 0, true)})
+		}
+		for i := 0; i < S.NumFields(); i++ {
+			aEntry[i] = ip.Load(st, fieldPtr(a, S.Field(i).Type(), i), S.Field(i).Type())
+			eEntry[i] = ip.Load(st, fieldPtr(e, S.Field(i).Type(), i), S.Field(i).Type())
+		}
+		return []absint.Val{a, e}, st
+	})
+	if out == nil || len(ip.Imprec) > 0 {
+		R.Fail("coverage", "Append[no-target]:analysable", apos, fmt.Sprintf("not interpretable: %v", ip.Imprec))
+		return
+	}
+	o := ip.Ops
+	an, _ := aEntry[roles.N].(*absint.Int)
+	en, _ := eEntry[roles.N].(*absint.Int)
+	var bad []string
+	var ws []int
+	for f := range W {
+		ws = append(ws, f)
+	}
+	sort.Ints(ws)
+	for _, f := range ws {
+		if f == roles.Base || f == roles.Code || f == roles.Lines || isRefType(S.Field(f).Type()) {
+			continue
+		}
+		ft := S.Field(f).Type()
+		fin := ip.Load(out, fieldPtr(a, ft, f), ft)
+		fk := absint.ValKey(fin)
+		if f == roles.N {
+			okn := an != nil && (fk == an.Lin.Key() || (en != nil && fk == o.Add(an, en).Lin.Key()))
+			for _, ev := range ip.Events {
+				if r, ok := ev.Result.(*absint.Int); ok && ev.Kind == "copy" && an != nil && o.Add(an, r).Lin.Key() == fk {
+					okn = true
+				}
+			}
+			if !okn {
+				bad = append(bad, "n becomes "+fk)
+			}
+			continue
+		}
+		if fk != absint.ValKey(eEntry[f]) {
+			bad = append(bad, fmt.Sprintf("%s becomes %s, want the argument's %s", roles.fieldName(f), fk, absint.ValKey(eEntry[f])))
+		}
+	}
+	if len(bad) > 0 {
+		R.Fail("coverage", "Append[no-target]", apos, strings.Join(bad, "; "))
+	} else {
+		R.Pass("coverage", "Append[no-target]", apos, "without a target: scalar fields taken from the argument, n unchanged up to the (empty) copy")
+	}
 }
